@@ -1381,11 +1381,17 @@ func verifLemmaProgress(g *Graph, t *Task) {}
 //@ spec cTitle(t *Task, m *TaskMeta) string = ite(m != nil && m.CreatedTitle != "", m.CreatedTitle, t.Title)
 //@ spec cBody(t *Task, m *TaskMeta) string = ite(m != nil && m.CreatedBody != "", m.CreatedBody, t.Body)
 //@ spec cEpic(t *Task, m *TaskMeta) string = ite(m != nil && m.CreatedEpicIDSet, m.CreatedEpicID, t.EpicID)
+//@ spec cAt(t *Task, m *TaskMeta) time.Time = ite(m != nil && m.CreatedAt != zeroTime(), m.CreatedAt, t.CreatedAt)
+//@ spec evClaimAt(e Event, id string, cur time.Time) time.Time =
+//@     ite(e.Type == "claim" && decOK_ClaimEvent(content(e.Data)) && dec_ClaimEvent(content(e.Data)).ID == id
+//@           && parseOK(dec_ClaimEvent(content(e.Data)).TS), parseVal(dec_ClaimEvent(content(e.Data)).TS), cur)
+//@ spec effClaimAt(evs []Event, id string, c time.Time) time.Time = foldl8(evClaimAt, evs, c, id)
 //@ spec isCreateFor(e Event, t *Task, m *TaskMeta) bool =
 //@     e.Type == ite(t.IsEpic, "new_epic", "new_task") && decOK_NewTaskEvent(content(e.Data)) && allocated(e.Data) &&
 //@     dec_NewTaskEvent(content(e.Data)).ID == t.ID && dec_NewTaskEvent(content(e.Data)).UUID == t.UUID &&
 //@     dec_NewTaskEvent(content(e.Data)).EpicID == cEpic(t, m) && dec_NewTaskEvent(content(e.Data)).State == cState(t, m) &&
-//@     dec_NewTaskEvent(content(e.Data)).Title == cTitle(t, m) && dec_NewTaskEvent(content(e.Data)).Body == cBody(t, m)
+//@     dec_NewTaskEvent(content(e.Data)).Title == cTitle(t, m) && dec_NewTaskEvent(content(e.Data)).Body == cBody(t, m) &&
+//@     dec_NewTaskEvent(content(e.Data)).CreatedAt == fmtTime(cAt(t, m))
 //@ spec metaOf(g *Graph, id string) *TaskMeta = ite(has(g.Meta, id), g.Meta[id], nil)
 //@ spec groupOf(evs []Event, s int) []Event = window(evs, s + 1, ite(len(evs) - s - 1 < 5, len(evs) - s - 1, 5))
 //@ func sortedTasks$1
@@ -1422,6 +1428,8 @@ func verifLemmaProgress(g *Graph, t *Task) {}
 //@   step [claim-none:prefix,results-type,alloc] tasks[index-1].ClaimedBy == "" ==> effClaim(groupOf(events, old(len(events))), tasks[index-1].ID, "") == ""
 //@   step [claim-kept:prefix,results-type,alloc] tasks[index-1].ClaimedBy != "" && !clears(tasks[index-1].State) ==>
 //@        effClaim(groupOf(events, old(len(events))), tasks[index-1].ID, "") == tasks[index-1].ClaimedBy
+//@   step [claim-time:prefix,results-type,alloc] tasks[index-1].ClaimedBy != "" && metaOf(graph, tasks[index-1].ID) != nil && metaOf(graph, tasks[index-1].ID).LastClaimAt != zeroTime() ==>
+//@        effClaimAt(groupOf(events, old(len(events))), tasks[index-1].ID, zeroTime()) == metaOf(graph, tasks[index-1].ID).LastClaimAt
 //@   step [title:prefix,results-type,alloc] effTitle(groupOf(events, old(len(events))), tasks[index-1].ID, cTitle(tasks[index-1], metaOf(graph, tasks[index-1].ID))) == tasks[index-1].Title
 //@   step [results-tail:prefix,results,alloc] len(events) - old(len(events)) - 1 - len(tasks[index-1].Results) >= 0 && len(events) - old(len(events)) - 1 - len(tasks[index-1].Results) <= 5 &&
 //@        (forall j int :: 0 <= j && j < len(tasks[index-1].Results) ==>
